@@ -4,7 +4,9 @@
               notice and that break the property; addressed structurally, see sa/mutate.py) and (b) the seeded changes under
               /verif/seeded (written by independent sub-agents) - the property's rules must report an unlisted finding on each;
  must stay
- silent     : the behaviour-preserving source transformations of sa/refactor.py - no finding, no analysis error.
+ silent     : the behaviour-preserving source transformations of sa/refactor.py and the hand-written behaviour-preserving
+              refactorings under /verif/benign (written by independent sub-agents, each with an equivalence demonstration) -
+              no finding, no analysis error.
 
 A disagreement is a defect of the *checker*; it is reported as ANALYSIS-ERROR (exit 2), never as a violation of the property.
 A corpus entry whose target construct no longer exists in /repo is counted as skipped.
@@ -24,6 +26,7 @@ HERE = os.path.dirname(os.path.abspath(__file__))
 VERIF = os.path.dirname(HERE)
 CORPUS = os.path.join(HERE, 'selftest_corpus.json')
 SEEDED = os.path.join(VERIF, 'seeded')
+BENIGN = os.path.join(VERIF, 'benign')
 
 
 def _analyse(prop: str, sources: Dict[str, str]) -> Tuple[str, List[str]]:
@@ -69,7 +72,7 @@ def _job(args):
                 return kind, ident, 'skipped', ['target construct not found']
             variant = dict(sources)
             variant[payload['module']] = new
-        elif kind == 'seed':
+        elif kind in ('seed', 'benign'):
             variant = _apply_patch(sources, payload)
             if variant is None:
                 return kind, ident, 'skipped', ['patch does not apply to the current tree']
@@ -114,12 +117,17 @@ def run_for_property(prop: str, P, jobs: int = 16) -> dict:
         work.append(('seed', name, pp, prop, sources))
     for op in refactor.OPERATORS:
         work.append(('refactoring', op, op, prop, sources))
+    if os.path.isdir(BENIGN):
+        for name in sorted(os.listdir(BENIGN)):
+            pp = os.path.join(BENIGN, name, 'patch.diff')
+            if os.path.exists(pp):
+                work.append(('benign', name, pp, prop, sources))
     res = []
     if work:
         with ProcessPoolExecutor(min(jobs, len(work))) as ex:
             res = list(ex.map(_job, work, chunksize=2))
     failed = []
-    out = {'mutants': 0, 'mutants_fired': 0, 'seeds': 0, 'seeds_fired': 0, 'refactorings': 0, 'refactorings_silent': 0,
+    out = {'mutants': 0, 'mutants_fired': 0, 'seeds': 0, 'seeds_fired': 0, 'refactorings': 0, 'refactorings_silent': 0, 'benign': 0, 'benign_silent': 0,
            'skipped': [], 'failed': failed, 'sample_fired': []}
     for kind, ident, st, det in res:
         if st == 'skipped':
@@ -139,6 +147,12 @@ def run_for_property(prop: str, P, jobs: int = 16) -> dict:
                 out['seeds_fired'] += 1
             else:
                 failed.append('seeded change not reported (%s): %s %s' % (st, ident, det[:1]))
+        elif kind == 'benign':
+            out['benign'] += 1
+            if st == 'silent':
+                out['benign_silent'] += 1
+            else:
+                failed.append('false alarm on hand-written behaviour-preserving refactoring %s (%s): %s' % (ident, st, det[:2]))
         else:
             out['refactorings'] += 1
             if st == 'silent':
